@@ -20,7 +20,7 @@ META = {
     "stubs": ["Taus.tau_energy / Taus.tau_exit_prob -> symbolic columns (covered by C04 / C05)", "np.log / np.exp -> Ackermannised, strictly monotone mutual inverses, log(1)=0", "np.sin of the emergence angle -> point on the unit circle with monotonicity on [-pi/2, pi/2]"],
     "assumptions": ["REAL mode", "reference constants: c = 299792.458 km/s, tau0 = 2.903e-13 s, m_tau = 1.77686 GeV (PDG), compared within 1e-6 relative", "Earth radius: astropy R_earth in km as used by the code"],
 }
-LEDGER = {"quick": 310, "thorough": 90}
+LEDGER = {"quick": 310, "thorough": 325}
 C_KM_S = Fr(299792458, 1000)
 TAU0 = Fr(2903, 10**16)
 MTAU = Fr(177686, 100000)
